@@ -41,6 +41,8 @@ pub struct VarD {
     pub name: String,
     pub ty: Ty,
     pub init: i64,
+    /// declared in the same comma-separated list as the previous variable (`a, b : T;`)
+    pub join: bool,
 }
 
 type ArgList = Vec<(Option<String>, Expr)>;
@@ -68,6 +70,10 @@ pub enum Stmt {
     Assign(Lv, Expr),
     FbCall { inst: String, ins: Vec<(String, Expr)>, outs: Vec<(String, String)> },
     If(Expr, Expr, Vec<Stmt>),
+    /// `var := Value;` on an enum variable
+    EnumAssign(String, String),
+    /// `IF var = Value THEN … END_IF;`
+    IfEnum(String, String, Vec<Stmt>),
 }
 
 #[derive(Clone, Debug, Default)]
@@ -81,8 +87,13 @@ pub struct MethodD {
 #[derive(Clone, Debug)]
 pub enum ItemK {
     Cfg { globals: Vec<VarD>, task: String, insts: Vec<(String, String, String)> },
-    Struct { fields: Vec<String> },
-    Func { inputs: Vec<VarD>, locals: Vec<VarD>, body: Vec<Stmt> },
+    /// fields with their "joined to the previous field declaration" flag (`lo, hi : DINT;`)
+    Struct { fields: Vec<(String, bool)> },
+    Enum { values: Vec<String> },
+    Alias,
+    /// `dead`: never called (its body is analysed but not executed; hosts the enum literals, which the
+    /// runtime cannot evaluate unqualified)
+    Func { inputs: Vec<VarD>, locals: Vec<VarD>, body: Vec<Stmt>, dead: bool },
     Fb { inputs: Vec<VarD>, outputs: Vec<VarD>, locals: Vec<VarD>, methods: Vec<MethodD>, body: Vec<Stmt> },
     Prog { locals: Vec<VarD>, body: Vec<Stmt> },
 }
@@ -100,6 +111,9 @@ pub struct Project {
     pub items: Vec<Item>,
     /// references may be spelled in a different case than their declaration
     pub variants: bool,
+    /// per file: 0 = as generated, 1 = every symbol declared only in other files is spelled ALL-UPPER,
+    /// 2 = all-lower
+    pub policy: Vec<u8>,
 }
 
 // ------------------------------------------------------------------------------------------------
@@ -107,13 +121,13 @@ pub struct Project {
 // ------------------------------------------------------------------------------------------------
 
 #[derive(Clone, Copy, Debug, PartialEq, Eq)]
-pub enum DK { Var, Param, Func, Fb, Prog, Method, Stype, Field, Cfg, Task, Inst }
+pub enum DK { Var, Param, Func, Fb, Prog, Method, Stype, Field, Cfg, Task, Inst, EnumVal }
 impl DK {
     fn s(self) -> &'static str {
         match self {
             DK::Var => "var", DK::Param => "param", DK::Func => "func", DK::Fb => "fb", DK::Prog => "prog",
             DK::Method => "method", DK::Stype => "stype", DK::Field => "field", DK::Cfg => "cfg",
-            DK::Task => "task", DK::Inst => "inst",
+            DK::Task => "task", DK::Inst => "inst", DK::EnumVal => "enumval",
         }
     }
 }
@@ -147,6 +161,9 @@ pub struct Rendered {
 struct R<'a> {
     out: &'a mut Rendered,
     file: usize,
+    /// case policy of this file and the (normalised) names it applies to
+    policy: u8,
+    foreign_only: &'a BTreeSet<String>,
 }
 
 impl<'a> R<'a> {
@@ -154,6 +171,13 @@ impl<'a> R<'a> {
         self.out.texts[self.file].push_str(s);
     }
     fn occ(&mut self, name: &str, scope: usize, kind: OKind, link: Option<usize>) -> usize {
+        let respelled;
+        let name = if kind != OKind::Decl && self.policy != 0 && self.foreign_only.contains(&norm(name)) {
+            respelled = if self.policy == 1 { name.to_ascii_uppercase() } else { name.to_ascii_lowercase() };
+            respelled.as_str()
+        } else {
+            name
+        };
         let start = self.out.texts[self.file].len();
         self.out.texts[self.file].push_str(name);
         self.out.occs.push(OccR { file: self.file, start, name: name.to_string(), scope, kind, link });
@@ -185,16 +209,31 @@ impl<'a> R<'a> {
         }
         self.raw(kw);
         self.raw("\n");
-        for v in vars {
+        let mut i = 0;
+        while i < vars.len() {
+            // one declaration: vars[i] and every following variable flagged `join`
+            let mut j = i + 1;
+            while j < vars.len() && vars[j].join {
+                j += 1;
+            }
             self.raw("    ");
-            let did = self.decl(&v.name, decl_scope, pos_scope, kind);
+            let mut dids = Vec::new();
+            for (k, v) in vars[i..j].iter().enumerate() {
+                if k > 0 {
+                    self.raw(", ");
+                }
+                dids.push(self.decl(&v.name, decl_scope, pos_scope, kind));
+            }
             self.raw(" : ");
-            let t = self.ty(&v.ty, pos_scope);
-            self.out.decls[did].tyocc = t;
-            if v.ty == Ty::Int && v.init != 0 {
-                self.raw(&format!(" := {}", v.init));
+            let t = self.ty(&vars[i].ty, pos_scope);
+            for d in dids {
+                self.out.decls[d].tyocc = t;
+            }
+            if j == i + 1 && vars[i].ty == Ty::Int && vars[i].init != 0 {
+                self.raw(&format!(" := {}", vars[i].init));
             }
             self.raw(";\n");
+            i = j;
         }
         self.raw("END_VAR\n");
     }
@@ -291,6 +330,22 @@ impl<'a> R<'a> {
                     }
                     self.raw(");\n");
                 }
+                Stmt::EnumAssign(v, val) => {
+                    self.occ(v, scope, OKind::Ref, None);
+                    self.raw(" := ");
+                    self.occ(val, scope, OKind::Ref, None);
+                    self.raw(";\n");
+                }
+                Stmt::IfEnum(v, val, body) => {
+                    self.raw("IF ");
+                    self.occ(v, scope, OKind::Ref, None);
+                    self.raw(" = ");
+                    self.occ(val, scope, OKind::Ref, None);
+                    self.raw(" THEN\n");
+                    self.stmts(body, scope, indent + 4);
+                    self.raw(&" ".repeat(indent));
+                    self.raw("END_IF;\n");
+                }
                 Stmt::If(a, b, body) => {
                     self.raw("IF ");
                     self.expr(a, scope);
@@ -306,6 +361,56 @@ impl<'a> R<'a> {
     }
 }
 
+/// normalised names declared in each file (every kind of declaration)
+fn declared_names(p: &Project) -> Vec<BTreeSet<String>> {
+    let mut out = vec![BTreeSet::new(); p.nfiles];
+    for it in &p.items {
+        let s = &mut out[it.file];
+        s.insert(norm(&it.name));
+        let vs = |v: &[VarD], s: &mut BTreeSet<String>| {
+            for d in v {
+                s.insert(norm(&d.name));
+            }
+        };
+        match &it.kind {
+            ItemK::Cfg { globals, task, insts } => {
+                vs(globals, s);
+                s.insert(norm(task));
+                for (i, _, _) in insts {
+                    s.insert(norm(i));
+                }
+            }
+            ItemK::Struct { fields } => {
+                for (f, _) in fields {
+                    s.insert(norm(f));
+                }
+            }
+            ItemK::Enum { values } => {
+                for v in values {
+                    s.insert(norm(v));
+                }
+            }
+            ItemK::Alias => {}
+            ItemK::Func { inputs, locals, .. } => {
+                vs(inputs, s);
+                vs(locals, s);
+            }
+            ItemK::Fb { inputs, outputs, locals, methods, .. } => {
+                vs(inputs, s);
+                vs(outputs, s);
+                vs(locals, s);
+                for m in methods {
+                    s.insert(norm(&m.name));
+                    vs(&m.inputs, s);
+                    vs(&m.locals, s);
+                }
+            }
+            ItemK::Prog { locals, .. } => vs(locals, s),
+        }
+    }
+    out
+}
+
 pub fn render(p: &Project) -> Rendered {
     let mut out = Rendered { texts: vec![String::new(); p.nfiles], ..Default::default() };
     // file-major, so that declaration and occurrence ids are ordered by (file, offset)
@@ -313,8 +418,21 @@ pub fn render(p: &Project) -> Rendered {
     for f in 0..p.nfiles {
         ordered.extend(p.items.iter().filter(|it| it.file == f));
     }
+    // names declared per file; a file's case policy applies to names declared ONLY in other files
+    let declared = declared_names(p);
+    let foreign_only: Vec<BTreeSet<String>> = (0..p.nfiles)
+        .map(|f| {
+            let mut s = BTreeSet::new();
+            for (g, names) in declared.iter().enumerate() {
+                if g != f {
+                    s.extend(names.iter().filter(|n| !declared[f].contains(*n)).cloned());
+                }
+            }
+            s
+        })
+        .collect();
     for it in ordered {
-        let mut r = R { out: &mut out, file: it.file };
+        let mut r = R { out: &mut out, file: it.file, policy: p.policy.get(it.file).copied().unwrap_or(0), foreign_only: &foreign_only[it.file] };
         match &it.kind {
             ItemK::Cfg { globals, task, insts } => {
                 r.raw("CONFIGURATION ");
@@ -346,14 +464,43 @@ pub fn render(p: &Project) -> Rendered {
                 let d = r.decl(&it.name, 0, 0, DK::Stype);
                 r.raw(" : STRUCT\n");
                 let ss = r.new_scope(0, d);
-                for f in fields {
+                let mut i = 0;
+                while i < fields.len() {
+                    let mut j = i + 1;
+                    while j < fields.len() && fields[j].1 {
+                        j += 1;
+                    }
                     r.raw("    ");
-                    r.decl(f, ss, 0, DK::Field);
+                    for (k, (f, _)) in fields[i..j].iter().enumerate() {
+                        if k > 0 {
+                            r.raw(", ");
+                        }
+                        r.decl(f, ss, 0, DK::Field);
+                    }
                     r.raw(" : DINT;\n");
+                    i = j;
                 }
                 r.raw("END_STRUCT\nEND_TYPE\n\n");
             }
-            ItemK::Func { inputs, locals, body } => {
+            ItemK::Enum { values } => {
+                r.raw("TYPE ");
+                r.decl(&it.name, 0, 0, DK::Stype);
+                r.raw(" : (");
+                for (k, v) in values.iter().enumerate() {
+                    if k > 0 {
+                        r.raw(", ");
+                    }
+                    // enum values are symbols of the GLOBAL scope of their file (children of the TYPE symbol)
+                    r.decl(v, 0, 0, DK::EnumVal);
+                }
+                r.raw(");\nEND_TYPE\n\n");
+            }
+            ItemK::Alias => {
+                r.raw("TYPE ");
+                r.decl(&it.name, 0, 0, DK::Stype);
+                r.raw(" : DINT;\nEND_TYPE\n\n");
+            }
+            ItemK::Func { inputs, locals, body, .. } => {
                 r.raw("FUNCTION ");
                 let did = r.out.decls.len();
                 let sid = r.out.scopes.len() + 1;
@@ -436,8 +583,8 @@ fn case_variant(rng: &mut Rng, s: &str) -> String {
 #[derive(Clone, Debug, PartialEq)]
 enum Sem {
     IntVar { writable: bool },
-    Inst(usize),   // FB instance of item
-    Rec(usize),    // struct variable of item
+    Inst(usize),    // FB instance / struct variable of item
+    EnumVar(usize), // variable of enum item
     Func(usize),
     Method(usize), // method index in the current FB
     Other,
@@ -509,6 +656,8 @@ pub fn gen_project(rng: &mut Rng) -> Project {
     };
     // ---- item skeletons (kinds + files), dependency order = item order
     let nstruct = g.rng.below(2) as usize;
+    let nalias = g.rng.below(2) as usize;
+    let nenum = g.rng.below(2) as usize;
     let nfunc = g.rng.below(3) as usize;
     let nfb = g.rng.below(3) as usize;
     let nprog = 1 + g.rng.below(2) as usize;
@@ -519,17 +668,74 @@ pub fn gen_project(rng: &mut Rng) -> Project {
         let nf = 1 + g.rng.below(3) as usize;
         let mut taken = BTreeSet::new();
         let prefer = all_root_names.clone();
-        let fields = (0..nf).map(|_| g.local_name(&mut taken, &prefer)).collect();
+        let lists = g.rng.chance(1, 2);
+        let fields = (0..nf)
+            .map(|i| {
+                let n = g.local_name(&mut taken, &prefer);
+                (n, i > 0 && lists && g.rng.chance(2, 3))
+            })
+            .collect();
         all_root_names.push(name.clone());
         items.push(Item { file: g.rng.below(nfiles as u64) as usize, name, kind: ItemK::Struct { fields } });
+    }
+    for _ in 0..nalias {
+        let name = g.fresh_root();
+        all_root_names.push(name.clone());
+        items.push(Item { file: g.rng.below(nfiles as u64) as usize, name, kind: ItemK::Alias });
+    }
+    // an enum comes with a never-called function of the same file that assigns and compares its values
+    // (enum values are visible in their own file only, and the runtime cannot evaluate them unqualified)
+    for _ in 0..nenum {
+        let name = g.fresh_root();
+        let file = g.rng.below(nfiles as u64) as usize;
+        let nv = 2 + g.rng.below(3) as usize;
+        let values: Vec<String> = (0..nv).map(|_| g.fresh_root()).collect();
+        all_root_names.push(name.clone());
+        let eidx = items.len();
+        items.push(Item { file, name: name.clone(), kind: ItemK::Enum { values: values.clone() } });
+        let fname = g.fresh_root();
+        let mut taken = BTreeSet::new();
+        taken.insert(norm(&fname));
+        for v in &values {
+            taken.insert(norm(v));
+        }
+        taken.insert(norm(&name));
+        let nl = 1 + g.rng.below(2) as usize;
+        let mut locals = Vec::new();
+        for i in 0..nl {
+            let n = g.local_name(&mut taken, &[]);
+            let sp = g.spell(&name);
+            locals.push(VarD { name: n, ty: Ty::Named(eidx, sp), init: 0, join: i > 0 && g.rng.bool() });
+        }
+        let cnt = g.local_name(&mut taken, &[]);
+        locals.push(VarD { name: cnt.clone(), ty: Ty::Int, init: 0, join: false });
+        let mut body = Vec::new();
+        for _ in 0..(2 + g.rng.below(3)) {
+            let v = g.rng.pick(&locals[..nl]).name.clone();
+            let val = g.rng.pick(&values).clone();
+            let (v, val) = (g.spell(&v), g.spell(&val));
+            if g.rng.bool() {
+                body.push(Stmt::EnumAssign(v, val));
+            } else {
+                let c = g.spell(&cnt);
+                body.push(Stmt::IfEnum(v, val, vec![Stmt::Assign(Lv::Var(c.clone()), Expr::Bin(Box::new(Expr::Var(c)), '+', Box::new(Expr::Lit(1))))]));
+            }
+        }
+        let c = g.spell(&cnt);
+        body.push(Stmt::Assign(Lv::Var(g.spell(&fname)), Expr::Var(c)));
+        all_root_names.push(fname.clone());
+        items.push(Item { file, name: fname, kind: ItemK::Func { inputs: vec![], locals, body, dead: true } });
     }
     let user_types = |items: &[Item], want_fb: bool| -> Vec<usize> {
         items
             .iter()
             .enumerate()
-            .filter(|(_, it)| if want_fb { matches!(it.kind, ItemK::Fb { .. }) } else { matches!(it.kind, ItemK::Struct { .. }) })
+            .filter(|(_, it)| if want_fb { matches!(it.kind, ItemK::Fb { .. }) } else { matches!(it.kind, ItemK::Struct { .. } | ItemK::Alias) })
             .map(|(i, _)| i)
             .collect()
+    };
+    let alias_types = |items: &[Item]| -> Vec<usize> {
+        items.iter().enumerate().filter(|(_, it)| matches!(it.kind, ItemK::Alias)).map(|(i, _)| i).collect()
     };
     // declare a list of variables into scope `taken`
     fn vars(g: &mut G, n: usize, taken: &mut BTreeSet<String>, prefer: &[String], items: &[Item], types: &[usize]) -> Vec<VarD> {
@@ -544,7 +750,13 @@ pub fn gen_project(rng: &mut Rng) -> Project {
             // (a variable may be named like a member of its own type: at the base of `v.m` the real target
             // resolution then picks the member, which the model mirrors in `target`)
             let name = g.local_name(taken, prefer);
-            out.push(VarD { name, ty, init: g.rng.range(0, 9) });
+            // comma-separated declaration list with the previous variable (same type only)
+            let join = match (out.last(), &ty) {
+                (Some(VarD { ty: Ty::Int, .. }), Ty::Int) => g.rng.chance(1, 3),
+                (Some(VarD { ty: Ty::Named(a, _), .. }), Ty::Named(b, _)) if a == b => g.rng.chance(1, 2),
+                _ => false,
+            };
+            out.push(VarD { name, ty, init: g.rng.range(0, 9), join });
         }
         out
     }
@@ -556,15 +768,16 @@ pub fn gen_project(rng: &mut Rng) -> Project {
         let prefer = all_root_names.clone();
         let st = user_types(&items, false);
         let ni = 1 + g.rng.below(2) as usize;
-        let inputs = vars(&mut g, ni, &mut taken, &prefer, &items, &[]);
+        let al = alias_types(&items);
+        let inputs = vars(&mut g, ni, &mut taken, &prefer, &items, &al);
         let nl = g.rng.below(3) as usize;
         let locals = vars(&mut g, nl, &mut taken, &prefer, &items, &st);
         all_root_names.push(name.clone());
-        items.push(Item { file, name, kind: ItemK::Func { inputs, locals, body: vec![] } });
+        items.push(Item { file, name, kind: ItemK::Func { inputs, locals, body: vec![], dead: false } });
     }
     let field_names: Vec<String> = items
         .iter()
-        .flat_map(|it| if let ItemK::Struct { fields } = &it.kind { fields.iter().map(|f| norm(f)).collect() } else { Vec::new() })
+        .flat_map(|it| if let ItemK::Struct { fields } = &it.kind { fields.iter().map(|f| norm(&f.0)).collect() } else { Vec::new() })
         .collect();
     for _ in 0..nfb {
         let name = g.fresh_root();
@@ -579,10 +792,11 @@ pub fn gen_project(rng: &mut Rng) -> Project {
         let fbs = user_types(&items, true);
         let mut tys = st.clone();
         tys.extend(fbs);
+        let al = alias_types(&items);
         let ni = g.rng.below(3) as usize;
-        let inputs = vars(&mut g, ni, &mut taken, &prefer, &items, &[]);
+        let inputs = vars(&mut g, ni, &mut taken, &prefer, &items, &al);
         let no = 1 + g.rng.below(2) as usize;
-        let outputs = vars(&mut g, no, &mut taken, &prefer, &items, &[]);
+        let outputs = vars(&mut g, no, &mut taken, &prefer, &items, &al);
         let nl = g.rng.below(3) as usize;
         let locals = vars(&mut g, nl, &mut taken, &prefer, &items, &tys);
         let nm = g.rng.below(3) as usize;
@@ -599,7 +813,7 @@ pub fn gen_project(rng: &mut Rng) -> Project {
             let mut pref2 = prefer.clone();
             pref2.extend(inputs.iter().chain(&outputs).chain(&locals).map(|v| v.name.clone()));
             let mi = g.rng.below(3) as usize;
-            let minputs = vars(&mut g, mi, &mut mt, &pref2, &items, &[]);
+            let minputs = vars(&mut g, mi, &mut mt, &pref2, &items, &al);
             let ml = g.rng.below(2) as usize;
             let mlocals = vars(&mut g, ml, &mut mt, &pref2, &items, &st);
             methods.push(MethodD { name: mname, inputs: minputs, locals: mlocals, body: vec![] });
@@ -629,7 +843,7 @@ pub fn gen_project(rng: &mut Rng) -> Project {
         let mut globals = Vec::new();
         for _ in 0..ng {
             let n = g.fresh_root();
-            globals.push(VarD { name: n, ty: Ty::Int, init: g.rng.range(0, 9) });
+            globals.push(VarD { name: n, ty: Ty::Int, init: g.rng.range(0, 9), join: false });
         }
         // task and program-instance names: unique in the configuration and different from every global-scope
         // name (the runtime keeps program instances in its global table: recorded finding C16-inst-clash)
@@ -684,10 +898,11 @@ pub fn gen_project(rng: &mut Rng) -> Project {
         let file = items[idx].file;
         let genv = global_env(&snapshot, file, idx);
         match &snapshot[idx].kind {
+            ItemK::Func { dead: true, .. } => {}
             ItemK::Func { inputs, locals, .. } => {
                 let mut env = Vec::new();
-                push_vars(&mut env, inputs, false);
-                push_vars(&mut env, locals, true);
+                push_vars(&mut env, inputs, false, &snapshot);
+                push_vars(&mut env, locals, true, &snapshot);
                 env.extend(genv.clone());
                 let n = 1 + g.rng.below(4) as usize;
                 let mut body = gen_body(&mut g, &env, &snapshot, n, 2);
@@ -700,17 +915,17 @@ pub fn gen_project(rng: &mut Rng) -> Project {
             }
             ItemK::Fb { inputs, outputs, locals, methods, .. } => {
                 let mut fenv = Vec::new();
-                push_vars(&mut fenv, inputs, false);
-                push_vars(&mut fenv, outputs, true);
-                push_vars(&mut fenv, locals, true);
+                push_vars(&mut fenv, inputs, false, &snapshot);
+                push_vars(&mut fenv, outputs, true, &snapshot);
+                push_vars(&mut fenv, locals, true, &snapshot);
                 for (mi, m) in methods.iter().enumerate() {
                     fenv.push(EnvEntry { name: m.name.clone(), sem: Sem::Method(mi) });
                 }
                 let mut mbodies = Vec::new();
                 for m in methods {
                     let mut env = Vec::new();
-                    push_vars(&mut env, &m.inputs, false);
-                    push_vars(&mut env, &m.locals, true);
+                    push_vars(&mut env, &m.inputs, false, &snapshot);
+                    push_vars(&mut env, &m.locals, true, &snapshot);
                     env.extend(fenv.clone());
                     env.extend(genv.clone());
                     let n = g.rng.below(3) as usize;
@@ -733,7 +948,7 @@ pub fn gen_project(rng: &mut Rng) -> Project {
             }
             ItemK::Prog { locals, .. } => {
                 let mut env = Vec::new();
-                push_vars(&mut env, locals, true);
+                push_vars(&mut env, locals, true, &snapshot);
                 env.extend(genv.clone());
                 let n = 2 + g.rng.below(6) as usize;
                 let body = gen_body(&mut g, &env, &snapshot, n, 2);
@@ -744,14 +959,23 @@ pub fn gen_project(rng: &mut Rng) -> Project {
             _ => {}
         }
     }
-    Project { nfiles, items, variants }
+    // per-file case policy for symbols declared only in other files
+    let policy: Vec<u8> = (0..nfiles)
+        .map(|_| if nfiles > 1 { match g.rng.below(10) { 0..=1 => 1, 2 => 2, _ => 0 } } else { 0 })
+        .collect();
+    let variants = variants || policy.iter().any(|p| *p != 0);
+    Project { nfiles, items, variants, policy }
 }
 
-fn push_vars(env: &mut Vec<EnvEntry>, vars: &[VarD], writable: bool) {
+fn push_vars(env: &mut Vec<EnvEntry>, vars: &[VarD], writable: bool, items: &[Item]) {
     for v in vars {
         let sem = match &v.ty {
             Ty::Int => Sem::IntVar { writable },
-            Ty::Named(t, _) => Sem::Inst(*t), // refined by the caller through `sem_of`
+            Ty::Named(t, _) => match &items[*t].kind {
+                ItemK::Alias => Sem::IntVar { writable },
+                ItemK::Enum { .. } => Sem::EnumVar(*t),
+                _ => Sem::Inst(*t),
+            },
         };
         env.push(EnvEntry { name: v.name.clone(), sem });
     }
@@ -771,7 +995,7 @@ fn global_env(items: &[Item], file: usize, user: usize) -> Vec<EnvEntry> {
                 }
             }
             let sem = match &it.kind {
-                ItemK::Func { .. } if i < user => Sem::Func(i),
+                ItemK::Func { dead: false, .. } if i < user => Sem::Func(i),
                 _ => Sem::Other,
             };
             env.push(EnvEntry { name: it.name.clone(), sem });
@@ -859,7 +1083,7 @@ fn gen_expr(g: &mut G, env: &[EnvEntry], items: &[Item], depth: usize) -> Expr {
                     Expr::Mem { base: g.spell(&e.name), field: g.spell(&o) }
                 }
                 ItemK::Struct { fields } => {
-                    let f = g.rng.pick(fields).clone();
+                    let f = g.rng.pick(fields).0.clone();
                     Expr::Mem { base: g.spell(&e.name), field: g.spell(&f) }
                 }
                 _ => Expr::Lit(1),
@@ -909,7 +1133,7 @@ fn gen_body(g: &mut G, env: &[EnvEntry], items: &[Item], n: usize, depth: usize)
                 let b = (*g.rng.pick(&c)).clone();
                 let Sem::Inst(t) = b.sem else { unreachable!() };
                 let ItemK::Struct { fields } = &items[t].kind else { unreachable!() };
-                let f = g.rng.pick(fields).clone();
+                let f = g.rng.pick(fields).0.clone();
                 let e = gen_expr(g, env, items, depth);
                 out.push(Stmt::Assign(Lv::Mem { base: g.spell(&b.name), field: g.spell(&f) }, e));
             }
@@ -1050,6 +1274,9 @@ fn canon_value(v: &Value, out: &mut String) {
                 out.push(',');
             }
             out.push('}');
+        }
+        Value::Enum(e) => {
+            let _ = write!(out, "E{}", e.numeric_value);
         }
         Value::Array(a) => {
             out.push('[');
@@ -1320,9 +1547,11 @@ fn oracle(cx: &mut Ctx, decl_occ: Option<(usize, usize, String)>, edits: &[(usiz
             }
         }
     };
+    // the gate, evaluated with the implementation's own public predicates (independent of the model)
+    let gate_ok = trust_hir::is_valid_identifier(new_name) && !trust_hir::is_reserved_keyword(new_name);
     format!(
-        "wf=1 diag={} comp={} beh={} back={} uniform={} behcmp={}{}",
-        diag_ok as u8, comp_ok as u8, beh_ok as u8, back_ok as u8, uniform as u8,
+        "wf=1 gate={} diag={} comp={} beh={} back={} uniform={} behcmp={}{}",
+        gate_ok as u8, diag_ok as u8, comp_ok as u8, beh_ok as u8, back_ok as u8, uniform as u8,
         (cx.compare_behaviour && uniform) as u8, detail.replace('\n', " ")
     )
 }
@@ -1370,52 +1599,63 @@ fn write_structure(out: &mut Out, rd: &Rendered) {
     }
 }
 
-const BAD_NAMES: &[&str] = &[
-    "", "1x", "a__b", "x_", "_", "a-b", "a b", "a.b", "IF", "int", "Step", "EN", "eno", "é", "__x", "END_VAR", "Mod", "x.y.z",
-    "tod", "A_", "9", "a$",
+const RESERVED: &[&str] = &[
+    "IF", "Step", "ON", "INT", "while", "End_Var", "TRUE", "EN", "eno", "tod", "Mod", "At", "to", "BY", "program",
+    "var_input", "Any_Int", "r_edge", "from", "STRING", "Dt", "Exit", "NULL", "With", "Of", "dint", "Not",
 ];
+const INVALID: &[&str] = &["", "1x", "a__b", "x_", "_", "a-b", "a b", "é", "__x", "A_", "9", "a$", "x y"];
 
-fn new_names(rng: &mut Rng, rd: &Rendered, o: &OccR, fresh_ctr: &mut u32) -> Vec<String> {
-    let mut v = Vec::new();
-    let n = 2 + rng.below(3);
-    for _ in 0..n {
-        let c = rng.below(20);
-        let name = match c {
-            0..=5 => {
-                *fresh_ctr += 1;
-                match rng.below(3) {
-                    0 => format!("zq{}", fresh_ctr),
-                    1 => format!("Fresh_{}", fresh_ctr),
-                    _ => format!("_n{}X", fresh_ctr),
-                }
-            }
-            6..=9 => {
-                // name of a declaration of the same file (outer / inner / sibling scopes)
-                let c: Vec<&DeclR> = rd.decls.iter().filter(|d| d.file == o.file).collect();
-                let d = *rng.pick(&c);
-                if rng.chance(1, 4) { case_variant(rng, &d.name) } else { d.name.clone() }
-            }
-            10..=12 => {
-                let d = rng.pick(&rd.decls);
-                if rng.chance(1, 4) { case_variant(rng, &d.name) } else { d.name.clone() }
-            }
-            13 => case_variant(rng, &o.name),
-            14 => o.name.clone(),
-            15 => rng.pick(&rd.occs).name.clone(),
-            16 => "ABS".to_string(),
-            // a dotted path whose last segment is the old name (the namespace-move entry of `rename`)
-            17 => match rng.below(3) {
-                0 => format!("Ns.{}", o.name),
-                1 => format!("{}.{}", rng.pick(&rd.decls).name, o.name),
-                _ => format!("A.B.{}", case_variant(rng, &o.name)),
-            },
-            _ => rng.pick(BAD_NAMES).to_string(),
-        };
-        if !v.contains(&name) {
-            v.push(name);
-        }
+/// kinds of new names; the last three are always refused (cheap requests, enumerated for every site class)
+#[derive(Clone, Copy, PartialEq, Eq, Debug)]
+enum NK { Fresh, DeclSameFile, DeclAnyFile, CaseVariant, Same, OccText, Abs, Reserved, Invalid, Dotted }
+const ACCEPT_KINDS: [NK; 7] = [NK::Fresh, NK::DeclSameFile, NK::DeclAnyFile, NK::CaseVariant, NK::Same, NK::OccText, NK::Abs];
+const CHEAP_KINDS: [NK; 3] = [NK::Reserved, NK::Invalid, NK::Dotted];
+
+fn nk_name(k: NK) -> &'static str {
+    match k {
+        NK::Fresh => "fresh", NK::DeclSameFile => "declsamefile", NK::DeclAnyFile => "declanyfile",
+        NK::CaseVariant => "casevariant", NK::Same => "same", NK::OccText => "occtext", NK::Abs => "abs",
+        NK::Reserved => "reserved", NK::Invalid => "invalid", NK::Dotted => "dotted",
     }
-    v
+}
+
+fn make_name(rng: &mut Rng, rd: &Rendered, o: &OccR, k: NK, fresh_ctr: &mut u32) -> String {
+    match k {
+        NK::Fresh => {
+            *fresh_ctr += 1;
+            match rng.below(3) {
+                0 => format!("zq{}", fresh_ctr),
+                1 => format!("Fresh_{}", fresh_ctr),
+                _ => format!("_n{}X", fresh_ctr),
+            }
+        }
+        NK::DeclSameFile => {
+            let c: Vec<&DeclR> = rd.decls.iter().filter(|d| d.file == o.file).collect();
+            let d = *rng.pick(&c);
+            if rng.chance(1, 4) { case_variant(rng, &d.name) } else { d.name.clone() }
+        }
+        NK::DeclAnyFile => {
+            let d = rng.pick(&rd.decls);
+            if rng.chance(1, 4) { case_variant(rng, &d.name) } else { d.name.clone() }
+        }
+        NK::CaseVariant => case_variant(rng, &o.name),
+        NK::Same => o.name.clone(),
+        NK::OccText => rng.pick(&rd.occs).name.clone(),
+        NK::Abs => "ABS".to_string(),
+        NK::Reserved => {
+            let w = *rng.pick(RESERVED);
+            if rng.chance(1, 3) { case_variant(rng, w) } else { w.to_string() }
+        }
+        NK::Invalid => rng.pick(INVALID).to_string(),
+        // dotted paths, half of them with the old name as last segment (the namespace-move entry of `rename`)
+        NK::Dotted => match rng.below(5) {
+            0 => "a.b".to_string(),
+            1 => "x.y.z".to_string(),
+            2 => format!("Ns.{}", o.name),
+            3 => format!("{}.{}", rng.pick(&rd.decls).name, o.name),
+            _ => format!("A.B.{}", case_variant(rng, &o.name)),
+        },
+    }
 }
 
 pub fn run_project(n: u64, rng: &mut Rng, p: &Project, ops_per_case: usize, out: &mut Out) -> Result<(), String> {
@@ -1450,56 +1690,98 @@ pub fn run_project(n: u64, rng: &mut Rng, p: &Project, ops_per_case: usize, out:
     out.line(format!("case {n}"));
     write_structure(out, &rd);
     let mut fresh = 0u32;
-    let mut picks: Vec<usize> = (0..rd.occs.len()).collect();
-    // shuffle
-    for i in (1..picks.len()).rev() {
-        let j = rng.below(i as u64 + 1) as usize;
-        picks.swap(i, j);
-    }
-    let mut nops = 0usize;
     let mut nontrivial = false;
     let mut kinds_seen: BTreeMap<&'static str, u64> = BTreeMap::new();
-    'outer: for &oi in &picks {
+    // ---- request sites by class: (occurrence kind, does the name belong to another file only?)
+    let mut declared: Vec<BTreeSet<String>> = vec![BTreeSet::new(); rd.texts.len()];
+    for d in &rd.decls {
+        declared[d.file].insert(norm(&d.name));
+    }
+    let foreign = |o: &OccR| -> bool {
+        let nn = norm(&o.name);
+        !declared[o.file].contains(&nn) && declared.iter().enumerate().any(|(f, s)| f != o.file && s.contains(&nn))
+    };
+    let mut classes: BTreeMap<(&'static str, bool), Vec<usize>> = BTreeMap::new();
+    for (i, o) in rd.occs.iter().enumerate() {
+        classes.entry((o.kind.s(), foreign(o))).or_default().push(i);
+    }
+    // one request on the real code; returns whether it was accepted
+    let mut issue = |rng: &mut Rng, cx: &mut Ctx, out: &mut Out, oi: usize, nk: NK, fresh: &mut u32, nontrivial: &mut bool| -> bool {
         let o = rd.occs[oi].clone();
-        for nm in new_names(rng, &rd, &o, &mut fresh) {
-            if nops >= ops_per_case {
-                break 'outer;
+        let nm = make_name(rng, &rd, &o, nk, fresh);
+        let off = o.start + rng.below(o.name.len() as u64) as usize;
+        out.line(format!("ren {} {} {}", o.file, off, hexs(&nm)));
+        if std::env::var_os("C16_DEBUG").is_some() {
+            eprintln!("case {n}: ren f{} @{} {:?} ({}) -> {:?}", o.file, off, o.name, o.kind.s(), nm);
+        }
+        *kinds_seen.entry(o.kind.s()).or_insert(0) += 1;
+        out.count(&format!("combo_{}_{}_{}", o.kind.s(), if foreign(&o) { "x" } else { "l" }, nk_name(nk)));
+        match call_rename(&cx.db, o.file, off, &nm) {
+            Err(()) => {
+                out.line("impl panic");
+                out.count("rename_panic");
+                false
             }
-            nops += 1;
-            let off = o.start + rng.below(o.name.len() as u64) as usize;
-            out.line(format!("ren {} {} {}", o.file, off, hexs(&nm)));
-            if std::env::var_os("C16_DEBUG").is_some() {
-                eprintln!("case {n}: ren f{} @{} {:?} ({}) -> {:?}", o.file, off, o.name, o.kind.s(), nm);
+            Ok(None) => {
+                out.line("impl refused");
+                out.count("refused");
+                false
             }
-            *kinds_seen.entry(o.kind.s()).or_insert(0) += 1;
-            match call_rename(&cx.db, o.file, off, &nm) {
-                Err(()) => {
-                    out.line("impl panic");
-                    out.count("rename_panic");
+            Ok(Some(edits)) => {
+                out.line(format!(
+                    "impl edits {}",
+                    edits.iter().map(|(f, s, e, _)| format!("{f}:{s}:{e}")).collect::<Vec<_>>().join(",")
+                ));
+                out.count("accepted");
+                if edits.len() >= 2 {
+                    *nontrivial = true;
                 }
-                Ok(None) => {
-                    out.line("impl refused");
-                    out.count("refused");
-                }
-                Ok(Some(edits)) => {
-                    out.line(format!(
-                        "impl edits {}",
-                        edits.iter().map(|(f, s, e, _)| format!("{f}:{s}:{e}")).collect::<Vec<_>>().join(",")
-                    ));
-                    out.count("accepted");
-                    if edits.len() >= 2 {
-                        nontrivial = true;
-                    }
-                    let decl_occ = edits.iter().find_map(|(f, s, _, _)| {
-                        rd.occs.iter().find(|o| o.file == *f && o.start == *s && o.kind == OKind::Decl)
-                    });
-                    let decl_occ = decl_occ.map(|o| (o.file, o.start, o.name.clone()));
-                    let verdict = oracle(&mut cx, decl_occ, &edits, &nm);
-                    out.line(format!("# orc {verdict}"));
-                }
+                let decl_occ = edits.iter().find_map(|(f, s, _, _)| {
+                    rd.occs.iter().find(|o| o.file == *f && o.start == *s && o.kind == OKind::Decl)
+                });
+                let decl_occ = decl_occ.map(|o| (o.file, o.start, o.name.clone()));
+                let verdict = oracle(cx, decl_occ, &edits, &nm);
+                out.line(format!("# orc {verdict}"));
+                true
+            }
+        }
+    };
+    // ---- (1) every site class x every always-refused name kind (reserved, invalid, dotted): enumerated
+    let cheap_per_class = 2usize;
+    for (_, occs) in classes.iter() {
+        for _ in 0..cheap_per_class.min(occs.len()) {
+            let oi = *rng.pick(occs);
+            for nk in CHEAP_KINDS {
+                issue(rng, &mut cx, out, oi, nk, &mut fresh, &mut nontrivial);
             }
         }
     }
+    // ---- (2) every site class x every other name kind, in random order, until `ops_per_case` were accepted
+    let mut combos: Vec<((&'static str, bool), NK)> = Vec::new();
+    for k in classes.keys() {
+        for nk in ACCEPT_KINDS {
+            combos.push((*k, nk));
+        }
+    }
+    for i in (1..combos.len()).rev() {
+        let j = rng.below(i as u64 + 1) as usize;
+        combos.swap(i, j);
+    }
+    // requests from sites whose symbol lives in another file are rarer and come first every other case
+    if n % 2 == 0 {
+        combos.sort_by_key(|((_, foreign), _)| !*foreign);
+    }
+    let mut accepted = 0usize;
+    for (cls, nk) in combos.iter().take(4 * ops_per_case) {
+        if accepted >= ops_per_case {
+            break;
+        }
+        let oi = *rng.pick(&classes[cls]);
+        if issue(rng, &mut cx, out, oi, *nk, &mut fresh, &mut nontrivial) {
+            accepted += 1;
+        }
+    }
+    drop(issue);
     for (k, v) in kinds_seen {
         out.add(&format!("cursor_{k}"), v);
     }
